@@ -1317,6 +1317,7 @@ type farmGen struct {
 	stranger    *rig.Account
 	maxBits     int    // magnitude cap of this chain
 	maxCat      uint32 // MaxRewardCategories this chain wants (0 = leave default)
+	maxCatWas   uint32 // what it was before the mid-life lowering
 	bias        string // regime preferred by this chain ("" = any)
 	maxPools    int
 	last        []rig.Tx
@@ -2215,6 +2216,19 @@ func runFarm(run *ev.Run, c int, mode string) {
 		}
 		g.plainLists = true // the scripted creations below have to succeed: their coin lists stay in canonical order
 		maxCat := int(v.s.Params.MaxRewardCategories)
+		// in mid-life the authority lowers the number of reward denominations a pool may have to one, below what pools
+		// created earlier carry, and restores it twelve blocks later: the pools that exist keep all their denominations
+		if b == 40 && maxCat >= 2 {
+			p := v.s.Params
+			g.maxCatWas, p.MaxRewardCategories = p.MaxRewardCategories, 1
+			extra = append(extra, r.InjectRoute(g.creators[0], &farmTag{Kind: "params", Note: "categories-lowered-in-mid-life"}, &farmtypes.MsgUpdateParams{Authority: r.GovAddr.String(), Params: p}))
+			run.Count("reward-categories-lowered-below-existing-pools", 1)
+		}
+		if b == 52 && g.maxCatWas >= 2 {
+			p := v.s.Params
+			p.MaxRewardCategories = g.maxCatWas
+			extra = append(extra, r.InjectRoute(g.creators[0], &farmTag{Kind: "params", Note: "categories-restored"}, &farmtypes.MsgUpdateParams{Authority: r.GovAddr.String(), Params: p}))
+		}
 		switch {
 		case b == 0:
 			add(g.mkCreate(v, "residue", 6+rng.Intn(5), 0, 1, true))
